@@ -62,8 +62,8 @@ func init() {
 		ID:        "C03",
 		Level:     "model_checking",
 		Technique: "stateless model checking of the real pipeline (controlled scheduler over instrumented code, fake Postgres, simulated node): a chain indexed with batch b0, restart with batch b1/conc, then every interleaving (preemption-bounded, reorg landing at every RPC point) of the task thread(s) with an environment thread applying growth and one or two reorgs; oracle = independent projection of the final canonical chain + frame condition on every commit diff",
-		Rule: "jobs = integration sets {L1 (headers+logs), T1 (blocks), R1 (blocks+receipts), L1+T1 sharing one source client} x n in {4,5} (thorough 6) x index batch b0 in 1..3 x batch b1 in 1..3 x conc in {1,2} x pre-growth {0,1} x fork depth d in 1..3 x replacement length r in {d-1,d,d+1,d+2} x content {same, log removed, added, moved} x post-growth {0,1} (thorough: + second reorg at fork-1/fork/fork+1, equal or longer); quick = a covering subset of that product; " +
-			"per job every schedule of task thread(s) and the environment thread with <= 1 preemption (thorough 2), environment switches only at RPC points / step boundaries. An execution is non-trivial when the code under test deleted at least one row or cursor (a reorg was unwound) or the oracle rejected it; distinct = distinct (job, choice sequence).",
+		Rule: "jobs = integration sets {L1 (headers+logs), T1 (blocks), R1 (blocks+receipts), L1+T1 and (thorough) T1+R1 sharing one source client} x n in {4,5} (thorough 6) x index batch b0 in 1..3 x batch b1 in 1..3 x conc in {1,2} x pre-growth {0,1} x fork depth d in 1..3 x replacement length r in {d-1,d,d+1,d+2} x content {same, log removed, added, moved} x post-growth {0,1} x optional second reorg at fork-1/fork/fork+1 (equal or longer); thorough = the product with content/growth flags rotating over it, quick = a hand-picked covering subset (see c03Jobs); " +
+			"per job every schedule of task thread(s) and the environment thread with <= 1 deviation (thorough: 2 on the single-integration jobs with index batch 1 and n=5), free switches at step boundaries and between environment operations, environment switches otherwise only at RPC points; both partition orders when conc=2 and index batch 1. An execution is non-trivial when the code under test deleted at least one row or cursor (a reorg was unwound) or the oracle rejected it; distinct = distinct (job, choice sequence).",
 		Assumptions: []string{
 			"fake Postgres (h/simpg) interprets the SQL shovel sends; simulated node (h/simeth) answers like a well-behaved geth that switches chains atomically between two requests",
 			"'the source settles' = the environment thread has applied its last chain change; afterwards each task is stepped until it reports 'no new blocks' (number of integrations + 1) times in a row (the head cache may serve that many stale answers), horizon 4n+8 steps",
@@ -107,7 +107,7 @@ func c03Jobs(thorough bool) []c03Job {
 		if !c03Valid(j) {
 			return
 		}
-		k := fmt.Sprintf("%+v/%+v", j, j.Sec)
+		k := c03JobString(j)
 		if seen[k] {
 			return
 		}
@@ -136,11 +136,18 @@ func c03Jobs(thorough bool) []c03Job {
 				}
 			}
 		}
-		grid("L1", []int{4, 5, 6}, []int{1, 2, 3}, []int{1, 2, 3}, []int{1, 2}, []int{1, 2, 3})
+		grid("L1", []int{4, 5}, []int{1, 2, 3}, []int{1, 2, 3}, []int{1, 2}, []int{1, 2, 3})
+		grid("L1", []int{6}, []int{2, 3}, []int{1, 3}, []int{1}, []int{1, 2, 3})
 		grid("T1", []int{5}, []int{1, 2, 3}, []int{1, 2, 3}, []int{1, 2}, []int{1, 2, 3})
 		grid("R1", []int{5}, []int{1, 2, 3}, []int{1, 2, 3}, []int{1, 2}, []int{1, 2, 3})
 		grid("L1+T1", []int{4}, []int{1, 2, 3}, []int{1, 2}, []int{1}, []int{1, 2})
 		grid("T1+R1", []int{4}, []int{1, 2}, []int{1, 2}, []int{1}, []int{1, 2})
+		// two deviations on the single-integration jobs with index batch 1 and n=5
+		for i := range jobs {
+			if jobs[i].B0 == 1 && jobs[i].N == 5 && !strings.Contains(jobs[i].Igs, "+") {
+				jobs[i].Deep = true
+			}
+		}
 		// repeated / nested reorgs
 		for _, ig := range []string{"L1", "T1", "R1", "L1+T1"} {
 			for _, b0 := range []int{1, 2, 3} {
@@ -148,7 +155,7 @@ func c03Jobs(thorough bool) []c03Job {
 					for _, d := range []int{1, 2} {
 						for _, off := range []int{-1, 0, 1} {
 							for _, extra := range []int{0, 1} {
-								add(c03Job{Igs: ig, N: 5 - len(ig)/4, B0: b0, B1: b1, Conc: 1, Pre: (b0 + d) % 2, D: d, R: d + 1, Var: "same", Post: 1, Sec: &c03Second{Off: off, Extra: extra}})
+								add(c03Job{Igs: ig, N: 5 - len(ig)/4, B0: b0, B1: b1, Conc: 1, Pre: (b0 + d) % 2, D: d, R: d + 1, Var: "same", Post: 1, Sec: &c03Second{Off: off, Extra: extra}, Deep: b0 == 1 && len(ig) == 2})
 							}
 						}
 					}
@@ -780,8 +787,8 @@ func c03Run(c *fw.Ctx) {
 		jobs = []c03Job{one}
 	}
 	c.Bound("jobs", len(jobs))
-	c.Bound("preemptions", c03Bounds(c.Thorough(), c03Job{})[vrt.KPreempt])
-	c.Bound("reorgs_per_execution", map[bool]int{false: 2, true: 2}[c.Thorough()])
+	c.Bound("deviations_per_execution", map[bool]int{false: 1, true: 2}[c.Thorough()])
+	c.Bound("reorgs_per_execution", 2)
 	for _, j := range jobs {
 		if !c.Mine() {
 			continue
